@@ -60,6 +60,10 @@ func sharedDB() (*badger.DB, error) {
 	return dbInst, dbErr
 }
 
+// spuriousRetries: how often a refused access to a lock that must be free is repeated before
+// the refusal is believed (see mcase.access).
+const spuriousRetries = 5
+
 // hangLimit is how long a single resource call may take before it is reported as blocked
 // for ever. Lock time-outs are at most 50 ms, so this is a margin of >= 200x.
 const hangLimit = 10 * time.Second
@@ -312,6 +316,11 @@ func (c *mcase) checkFree(t *rapid.T, vi int, when string) {
 		var got tla.Value
 		var err error
 		c.call(t, v, fmt.Sprintf("%s: observer ReadValue(v%d)", when, vi), false, func() { got, err = v.obs.ReadValue(c.obsIF) })
+		for try := 0; try < spuriousRetries && errors.Is(err, distsys.ErrCriticalSectionAborted); try++ {
+			// see access: a stall longer than the time-out can refuse a free lock once
+			vstat.Class("model.spurious-timeout-on-free-lock")
+			c.call(t, v, fmt.Sprintf("%s: observer ReadValue(v%d), repeated", when, vi), false, func() { got, err = v.obs.ReadValue(c.obsIF) })
+		}
 		if err != nil {
 			c.fatalf(t, "%s: v%d is free in the model (every section that touched it has committed or aborted) but cannot be obtained: %v — a lock was not released", when, vi, err)
 		}
@@ -414,6 +423,17 @@ func (c *mcase) access(t *rapid.T, a, vi int, desc string, do func(h distsys.Arc
 	var err error
 	c.call(t, v, desc, !expectOK, func() { err = do(v.handles[a], c.ifaces[a]) })
 	if expectOK {
+		// The code takes the lock with `select { case lockCh <- x: ; case <-time.After(timeout): }`.
+		// If the calling thread is descheduled for longer than the (1-3 ms) time-out between
+		// arming the timer and entering the select, both cases are ready and Go may pick the
+		// time-out although the lock is free. That is a needless abort, which the property
+		// allows (the Run loop retries the section); a lock that was never released is refused
+		// every time. So a refusal of a free variable is repeated in isolation before it counts.
+		for try := 0; try < spuriousRetries && v.holder == -1 && errors.Is(err, distsys.ErrCriticalSectionAborted); try++ {
+			vstat.Class("model.spurious-timeout-on-free-lock")
+			c.logf("   (%s refused although v%d is free; repeating the call, %d)", desc, vi, try+1)
+			c.call(t, v, desc, false, func() { err = do(v.handles[a], c.ifaces[a]) })
+		}
 		if err != nil {
 			c.fatalf(t, "%s: refused with %v although v%d is %s", desc, err, vi, map[bool]string{true: "free", false: "held by the same sharer"}[v.holder == -1])
 		}
@@ -500,8 +520,22 @@ func TestC07Model(t *testing.T) {
 	rapid.Check(t, func(t *rapid.T) {
 		vstat.Case()
 		c := newModelCase(t)
+		// sharer of the next access: once two sections are open, two times out of three one of those,
+		// so that sections reach several variables before they meet a conflict
+		pickSharer := func(t *rapid.T) int {
+			var open []int
+			for a := 0; a < c.n; a++ {
+				if len(c.touched[a]) > 0 {
+					open = append(open, a)
+				}
+			}
+			if len(open) >= 2 && rapid.IntRange(0, 2).Draw(t, "preferOpen") > 0 {
+				return rapid.SampledFrom(open).Draw(t, "a")
+			}
+			return rapid.IntRange(0, c.n-1).Draw(t, "a")
+		}
 		pick := func(t *rapid.T) (int, int) {
-			return rapid.IntRange(0, c.n-1).Draw(t, "a"), rapid.IntRange(0, len(c.vars)-1).Draw(t, "v")
+			return pickSharer(t), rapid.IntRange(0, len(c.vars)-1).Draw(t, "v")
 		}
 		read := func(t *rapid.T) {
 			a, vi := pick(t)
@@ -556,7 +590,7 @@ func TestC07Model(t *testing.T) {
 			if len(c.fnVars) == 0 {
 				t.Skip("no function-valued variable in this case")
 			}
-			a := rapid.IntRange(0, c.n-1).Draw(t, "a")
+			a := pickSharer(t)
 			vi := rapid.SampledFrom(c.fnVars).Draw(t, "v")
 			v := c.vars[vi]
 			key := rapid.IntRange(0, len(v.committed)-1).Draw(t, "key")
@@ -590,8 +624,12 @@ func TestC07Model(t *testing.T) {
 			c.endSection(t, a, false, " (await failed)")
 		}
 		t.Repeat(map[string]func(*rapid.T){
+			// accesses are listed twice so that sections grow to several variables before
+			// they end (actions are drawn uniformly by name)
 			"read":       read,
+			"read'":      read,
 			"write":      write,
+			"write'":     write,
 			"indexWrite": indexWrite,
 			"commit":     commit,
 			"abort":      abort,
@@ -985,7 +1023,13 @@ func TestC07Concurrent(t *testing.T) {
 			var b strings.Builder
 			b.WriteString("--- case ---\n" + desc.String() + "--- attempts in arrival order ---\n")
 			rec.mu.Lock()
-			for _, e := range rec.events {
+			for i, e := range rec.events {
+				if n := len(rec.events); n > 400 && i >= 200 && i < n-200 {
+					if i == 200 {
+						fmt.Fprintf(&b, "… %d attempts omitted …\n", n-400)
+					}
+					continue
+				}
 				b.WriteString(e.String() + "\n")
 			}
 			rec.mu.Unlock()
@@ -1037,10 +1081,18 @@ func TestC07Concurrent(t *testing.T) {
 			for i := range mgrs {
 				h := mgrs[i].MakeLocalShared()
 				var err error
-				_, _, hung := guarded(func() {
-					_, err = h.ReadValue(throwAwayIFace(90 + i))
-					h.Abort(throwAwayIFace(90 + i))
-				})
+				hung := false
+				// every archetype has ended: a held lock is refused every time; a single
+				// refusal may be a scheduling stall longer than the time-out (see mcase.access)
+				for try := 0; try <= spuriousRetries && !hung; try++ {
+					_, _, hung = guarded(func() {
+						_, err = h.ReadValue(throwAwayIFace(90 + i))
+						h.Abort(throwAwayIFace(90 + i))
+					})
+					if err == nil {
+						break
+					}
+				}
 				if hung || err != nil {
 					leaked = append(leaked, names[i])
 				}
